@@ -50,6 +50,7 @@ KNOWN = [
 ]
 
 FIXED = [
+ ("C08", "828f954", "C08.R2 RootBuilder::remove_file left block.header.num_records stale: add 120 files, remove one, build -> the builder's own output fails to parse ('failed to fill whole buffer') (findings/T13)"),
  ("C17", "bf5ed03", "C17.R1 public evict_tail lost the slot: capacity 1, touch a; evict_tail(); touch b returned false (findings/T11; noted by a round-6 seeding agent, confirmed and fixed)"),
  ("C17", "5171568", "C06.R10 checkpoint deleted the file it had just written: checkpoint(gen 1); bump_generation; load_from_disk(1); checkpoint -> generation 1 file removed, next load fails (findings/T11)"),
  ("C02", "7a31e9f", "C02.R7 parse_index_filename('a\\u{e9}0000000.idx'): byte index 2 is not a char boundary (findings/T10)"),
